@@ -28,6 +28,10 @@ type SpecEnv struct {
 	depth   int
 	noInst  bool
 	callID  string // contract evaluated at a call site: a token unique to that call
+	// ghostLocal: a callee's contract applied at a call site speaks about the trace of THAT call
+	// (counters from 0, last values), not about the caller's trace: its ghost names are bound to
+	// fresh per-call constants, which the call site then folds into the caller's ghost state
+	ghostLocal map[string]Val
 }
 
 func (e *SpecEnv) clone() *SpecEnv {
@@ -426,6 +430,18 @@ func (e *SpecEnv) ghost(name string) Val {
 	gi, ok := u.W.GhostSorts[name]
 	if !ok {
 		sfail("unknown ghost g.%s", name)
+	}
+	if e.ghostLocal != nil && name != "panicked" && name != "clock" {
+		if v, ok := e.ghostLocal[name]; ok {
+			return v
+		}
+		x := u.fresh("callee.g."+name, gi.sort(u))
+		if strings.HasPrefix(name, "n") && gi.sort(u) == "Int" {
+			u.emit("(assert (>= " + x + " 0))")
+		}
+		v := Val{T: x, Typ: gi.typ}
+		e.ghostLocal[name] = v
+		return v
 	}
 	u.scalar("$g."+name, gi.sort(u))
 	return Val{T: u.hget(e.heap, "$g."+name), Typ: gi.typ}
